@@ -40,7 +40,8 @@ func main() {
 			ensureBase()
 			g := buildGarble("", false)
 			// Pre-warm the configs most checks share.
-			warmPool(g, false, K0, K5)
+			warmPool(g, false, K0, K1, K2, K3, K4, K5, K23, K8u, K8)
+			warmPool(g, true, K0)
 			fmt.Println("setup ok; garble", g.ID)
 		case "list":
 			ids := make([]string, 0, len(checks))
